@@ -1,15 +1,18 @@
 package checks
 
 import (
+	"context"
 	"encoding/json"
 	"fmt"
 	"math/rand"
 	"regexp"
 	"strconv"
 	"strings"
+	"sync"
 
 	"github.com/formancehq/go-libs/v5/pkg/query"
 
+	ledger "github.com/formancehq/ledger/internal"
 	"github.com/formancehq/ledger/internal/storage/common"
 	ledgerstore "github.com/formancehq/ledger/internal/storage/ledger"
 
@@ -21,9 +24,9 @@ import (
 func init() {
 	core.Register(&core.Check{
 		ID: "C20", Level: "exploration",
-		Rule: "(a) the SQL fragments the real filterAccountAddress / filterAccountAddressOnTransactions emit for random addresses and patterns (exact, partial `a::c`, prefix `a:...`, quotes, backslashes) are evaluated by a 40-line evaluator of exactly that fragment family (jsonb_array_length, `@@ '$[i] == \"s\"'`, `= 's'`, `@> '[{...}]'`) on random address arrays and compared with an independent address matcher; (b) for random filter ASTs (depth <= 4) canPushAddressFilterToLateral(F)=true must imply F(row) => pushed disjunction(row) on random rows with non-address leaves as free booleans; (c) random filters with unknown keys, disallowed operators and wrongly typed values must be refused as invalid queries by the real repository, valid ones accepted; (d) over random histories Count* equals the number of entities listed through all pages for random filters. Distinct = (sub-check, pattern/AST shape); non-trivial = pattern is partial or the AST mixes address and non-address leaves",
+		Rule:        "(a) the SQL fragments the real filterAccountAddress / filterAccountAddressOnTransactions emit for random addresses and patterns (exact, partial `a::c`, prefix `a:...`, quotes, backslashes) are evaluated by a 40-line evaluator of exactly that fragment family (jsonb_array_length, `@@ '$[i] == \"s\"'`, `= 's'`, `@> '[{...}]'`) on random address arrays and compared with an independent address matcher; (b) for random filter ASTs (depth <= 4) canPushAddressFilterToLateral(F)=true must imply F(row) => pushed disjunction(row) on random rows with non-address leaves as free booleans; (c) random filters with unknown keys, disallowed operators and wrongly typed values must be refused as invalid queries by the real repository, valid ones accepted; (d) over random histories Count* equals the number of entities listed through all pages for random filters. Distinct = (sub-check, pattern/AST shape); non-trivial = pattern is partial or the AST mixes address and non-address leaves",
 		Assumptions: []string{"only address semantics and the composition machinery are judged; metadata @>, balance, date, $in, $like leaves as executed by Postgres are not (they are SQL)", seqAssume, "addresses with exactly one segment fewer than an `a:...` pattern are counted as ambiguous (the documentation does not say whether `a:...` matches `a`) and excluded"},
-		Run:  runC20,
+		Run:         runC20,
 	})
 }
 
@@ -186,15 +189,26 @@ func c20Pattern(rng *rand.Rand) string {
 
 // AST for (b)
 type c20Node struct {
-	Op    string // and, or, not, addr, other
+	Op    string // and, or, not, addr, in, other
 	Kids  []*c20Node
 	Addr  string
+	In    []string // exact addresses of an $in leaf
 	Other int
 }
+
+// c20WithIn makes c20GenAST also draw `$in` leaves on the address (exact addresses only).
+var c20WithIn = false
 
 func c20GenAST(rng *rand.Rand, depth int, nOther *int) *c20Node {
 	if depth <= 0 || rng.Intn(3) == 0 {
 		if rng.Intn(2) == 0 {
+			if c20WithIn && rng.Intn(3) == 0 {
+				n := &c20Node{Op: "in"}
+				for i := 0; i < 1+rng.Intn(3); i++ {
+					n.In = append(n.In, c20Addr(rng))
+				}
+				return n
+			}
 			return &c20Node{Op: "addr", Addr: c20Pattern(rng)}
 		}
 		*nOther++
@@ -222,6 +236,12 @@ func (n *c20Node) builder() query.Builder {
 	switch n.Op {
 	case "addr":
 		return query.Match("address", n.Addr)
+	case "in":
+		vs := make([]any, len(n.In))
+		for i, a := range n.In {
+			vs[i] = a
+		}
+		return query.In("address", vs)
 	case "other":
 		return query.Match(fmt.Sprintf("metadata[k%d]", n.Other), "v")
 	case "not":
@@ -242,6 +262,13 @@ func (n *c20Node) eval(addr string, others []bool) bool {
 	case "addr":
 		m, _ := c20Match(n.Addr, addr)
 		return m
+	case "in":
+		for _, a := range n.In {
+			if a == addr {
+				return true
+			}
+		}
+		return false
 	case "other":
 		return others[n.Other]
 	case "not":
@@ -404,6 +431,122 @@ func runC20(r *core.Run) {
 			}
 		}
 	})
+	// (b') the same implication on the SQL the REAL volumes / aggregated-balances handlers emit (which address
+	// values are pushed is decided there): whatever restricts the accounts inside `join lateral (...)` must be
+	// implied by the filter, for $match and $in leaves on the address under any nesting
+	r.Floor("lateral_sql_pushed", 200)
+	r.ForEach("lateral-sql", r.N(3000, 60000), 0, func(c *core.Case) {
+		rng := c.Rng
+		nOther := 0
+		c20WithInMu.Lock()
+		c20WithIn = true
+		ast := c20GenAST(rng, 3, &nOther)
+		c20WithIn = false
+		c20WithInMu.Unlock()
+		hasIn, hasMatch := ast.has("in"), ast.has("addr")
+		b := ast.builder()
+		js, _ := json.Marshal(b)
+		db := realstore.NewSysDB()
+		defer db.Close()
+		d := db.NewDriver()
+		ctx := context.Background()
+		l := ledger.MustNewWithDefault("l1")
+		st, err := d.CreateLedger(ctx, &l)
+		if err != nil {
+			r.Inconclusive("CreateLedger: " + err.Error())
+			return
+		}
+		resource := []string{"volumes", "aggregated"}[c.Index%2]
+		db.Shim.ResetLog()
+		if resource == "volumes" {
+			_, err = st.Volumes().Paginate(ctx, common.InitialPaginatedQuery[ledger.GetVolumesOptions]{PageSize: 5, Options: common.ResourceQuery[ledger.GetVolumesOptions]{Builder: b}})
+		} else {
+			_, err = st.AggregatedVolumes().GetOne(ctx, common.ResourceQuery[ledger.GetAggregatedVolumesOptions]{Builder: b})
+		}
+		r.Eval("lateral-sql|"+resource+"|"+shapeOf(ast), hasIn && hasMatch)
+		var sqlText string
+		for _, s := range db.Shim.Log() {
+			if strings.Contains(s.SQL, "join lateral (") {
+				sqlText = s.SQL
+			}
+		}
+		if sqlText == "" {
+			r.Seen("lateral_sql_outcome", "no-lateral-statement:"+fmt.Sprint(err != nil))
+			return
+		}
+		pushed, ok := c20LateralRestriction(sqlText)
+		if !ok {
+			r.Inconclusive("cannot locate the lateral subquery in: " + sqlText)
+			return
+		}
+		if len(pushed) == 0 {
+			r.Count("lateral_sql_not_pushed", 1)
+			return
+		}
+		r.Count("lateral_sql_pushed", 1)
+		if hasIn {
+			r.Count("lateral_sql_pushed_with_in_leaf", 1)
+		}
+		var pats []string
+		ast.addrs(&pats)
+		for i := 0; i < 16; i++ {
+			addr := c20Addr(rng)
+			switch rng.Intn(3) {
+			case 0:
+				if ins := ast.ins(); len(ins) > 0 {
+					addr = ins[rng.Intn(len(ins))]
+				}
+			case 1:
+				if len(pats) > 0 {
+					p := pats[rng.Intn(len(pats))]
+					addr = strings.Trim(strings.ReplaceAll(strings.ReplaceAll(p, ":...", ":zz"), "::", ":zz:"), ":")
+					if addr == "" {
+						addr = "zz"
+					}
+				}
+			}
+			amb := false
+			for _, p := range pats {
+				if _, am := c20Match(p, addr); am {
+					amb = true
+				}
+			}
+			if amb {
+				continue
+			}
+			others := make([]bool, nOther)
+			for k := range others {
+				others[k] = rng.Intn(2) == 0
+			}
+			f := ast.eval(addr, others)
+			in := true
+			for _, conj := range pushed { // conjuncts: all must hold
+				any := false
+				for _, part := range c20SplitTop(conj, " OR ") {
+					okp, err := c20EvalAccount(c20StripParens(part), addr)
+					if err != nil {
+						r.Inconclusive(err.Error())
+						return
+					}
+					if okp {
+						any = true
+					}
+				}
+				if !any {
+					in = false
+				}
+			}
+			r.Count("lateral_sql_rows_checked", 1)
+			if f && !in {
+				kind := "match-only"
+				if hasIn {
+					kind = "with-$in-leaf"
+				}
+				c.Violation("C20/lateral-pushdown-drops-a-matching-row:"+resource+":"+kind, map[string]any{"filter": string(js), "address": addr, "other_leaves": others, "lateral_restriction": pushed, "sql": sqlText})
+				return
+			}
+		}
+	})
 	// (c) validation + (d) count == listed, through the controller stack
 	r.ForEach("count", r.N(300, 6000), 0, func(c *core.Case) {
 		rng := c.Rng
@@ -498,4 +641,130 @@ func shapeOf(n *c20Node) string {
 
 func shapeOfJSON(s string) string {
 	return regexp.MustCompile(`"[^"$]*"|\d+`).ReplaceAllString(s, "")
+}
+
+var c20WithInMu sync.Mutex
+
+func (n *c20Node) has(op string) bool {
+	if n.Op == op {
+		return true
+	}
+	for _, k := range n.Kids {
+		if k.has(op) {
+			return true
+		}
+	}
+	return false
+}
+
+func (n *c20Node) ins() []string {
+	var out []string
+	if n.Op == "in" {
+		out = append(out, n.In...)
+	}
+	for _, k := range n.Kids {
+		out = append(out, k.ins()...)
+	}
+	return out
+}
+
+// c20LateralRestriction returns the conjuncts that restrict the accounts inside `join lateral ( ... )`
+// beyond the join condition (and the ledger scoping).
+func c20LateralRestriction(sqlText string) ([]string, bool) {
+	i := strings.Index(sqlText, "join lateral (")
+	if i < 0 {
+		return nil, false
+	}
+	start := i + len("join lateral (")
+	depth, inStr, end := 1, false, -1
+	for j := start; j < len(sqlText); j++ {
+		ch := sqlText[j]
+		if ch == '\'' {
+			inStr = !inStr
+		}
+		if inStr {
+			continue
+		}
+		if ch == '(' {
+			depth++
+		}
+		if ch == ')' {
+			depth--
+			if depth == 0 {
+				end = j
+				break
+			}
+		}
+	}
+	if end < 0 {
+		return nil, false
+	}
+	sub := sqlText[start:end]
+	w := strings.Index(sub, " WHERE ")
+	if w < 0 {
+		return nil, true
+	}
+	var out []string
+	for _, conj := range c20SplitTop(sub[w+len(" WHERE "):], " AND ") {
+		cj := c20StripParens(strings.TrimSpace(conj))
+		if cj == "accounts.address = accounts_address" || strings.HasPrefix(cj, "ledger = ") || strings.HasPrefix(cj, `"accounts"."ledger" = `) || strings.HasPrefix(cj, "accounts.ledger = ") {
+			continue
+		}
+		out = append(out, cj)
+	}
+	return out, true
+}
+
+// c20SplitTop splits on sep (case-insensitive) outside parentheses and quotes.
+func c20SplitTop(s, sep string) []string {
+	var out []string
+	depth, inStr, last := 0, false, 0
+	up := strings.ToUpper(s)
+	usep := strings.ToUpper(sep)
+	for i := 0; i < len(s); i++ {
+		ch := s[i]
+		if ch == '\'' {
+			inStr = !inStr
+		}
+		if inStr {
+			continue
+		}
+		if ch == '(' {
+			depth++
+		}
+		if ch == ')' {
+			depth--
+		}
+		if depth == 0 && strings.HasPrefix(up[i:], usep) {
+			out = append(out, s[last:i])
+			last = i + len(sep)
+			i += len(sep) - 1
+		}
+	}
+	return append(out, s[last:])
+}
+
+func c20StripParens(s string) string {
+	s = strings.TrimSpace(s)
+	for strings.HasPrefix(s, "(") && strings.HasSuffix(s, ")") {
+		// only strip a pair that encloses the whole string
+		depth, whole := 0, true
+		for i := 0; i < len(s); i++ {
+			if s[i] == '(' {
+				depth++
+			}
+			if s[i] == ')' {
+				depth--
+				if depth == 0 && i < len(s)-1 {
+					whole = false
+					break
+				}
+			}
+		}
+		if !whole {
+			break
+		}
+		s = strings.TrimSpace(s[1 : len(s)-1])
+	}
+	return s
 }
